@@ -29,6 +29,18 @@ pub struct DocKind {
     pub aliases: &'static [(&'static str, &'static str)],
 }
 
+thread_local! {
+    /// Debug rendering of the typed value produced by the last parse on this thread (the only view of a typed value that
+    /// shows where one list element ends and the next begins: the printed paragraph joins them again)
+    static LAST_DEBUG: std::cell::RefCell<String> = std::cell::RefCell::new(String::new());
+}
+fn note_debug<T: std::fmt::Debug>(v: &T) {
+    LAST_DEBUG.with(|d| *d.borrow_mut() = format!("{:?}", v));
+}
+fn last_debug() -> String {
+    LAST_DEBUG.with(|d| d.borrow().clone())
+}
+
 fn items_of<T: ToDeb822Paragraph<lossy::Paragraph>>(v: &T) -> Items {
     let p: lossy::Paragraph = v.to_paragraph();
     p.all_items()
@@ -50,6 +62,7 @@ const REPO: &str = "apt_sources::Repository";
 
 fn control_parse(t: &str) -> Result<(String, Paras), String> {
     let c = debian_control::lossy::Control::from_str(t)?;
+    note_debug(&""); // (the control types have no Debug: no view of their element boundaries)
     let mut ps: Paras = vec![(SRC, items_of(&c.source))];
     for b in &c.binaries {
         ps.push((BIN, items_of(b)));
@@ -82,6 +95,7 @@ fn control_invalid() -> Vec<String> {
 
 fn copyright_parse(t: &str) -> Result<(String, Paras), String> {
     let c = debian_copyright::lossy::Copyright::from_str(t)?;
+    note_debug(&c);
     let mut ps: Paras = vec![(CH, items_of(&c.header))];
     for f in &c.files {
         ps.push((CF, items_of(f)));
@@ -119,6 +133,7 @@ macro_rules! single_kind {
     ($fname:ident, $eqname:ident, $ty:ty, $spec:literal, from_str, display) => {
         fn $fname(t: &str) -> Result<(String, Paras), String> {
             let v = <$ty>::from_str(t).map_err(|e| e.to_string())?;
+            note_debug(&v);
             Ok((v.to_string(), vec![($spec, items_of(&v))]))
         }
         fn $eqname(a: &str, b: &str) -> Result<bool, String> {
@@ -128,6 +143,7 @@ macro_rules! single_kind {
     ($fname:ident, $eqname:ident, $ty:ty, $spec:literal, from_str, paragraph) => {
         fn $fname(t: &str) -> Result<(String, Paras), String> {
             let v = <$ty>::from_str(t).map_err(|e| e.to_string())?;
+            note_debug(&""); // (Buildinfo has no Debug: no view of its element boundaries)
             Ok((print_of(&v), vec![($spec, items_of(&v))]))
         }
         fn $eqname(a: &str, b: &str) -> Result<bool, String> {
@@ -138,6 +154,7 @@ macro_rules! single_kind {
         fn $fname(t: &str) -> Result<(String, Paras), String> {
             let p = lossless_para(t)?;
             let v = <$ty as FromDeb822Paragraph<deb822_lossless::Paragraph>>::from_paragraph(&p)?;
+            note_debug(&v);
             Ok((print_of(&v), vec![($spec, items_of(&v))]))
         }
         fn $eqname(a: &str, b: &str) -> Result<bool, String> {
@@ -156,6 +173,7 @@ single_kind!(dep3_parse, dep3_eq, dep3::lossy::PatchHeader, "lossy::dep3::PatchH
 
 fn repos_parse(t: &str) -> Result<(String, Paras), String> {
     let r = apt_sources::Repositories::from_str(t)?;
+    note_debug(&r);
     let ps: Paras = r.iter().map(|x| (REPO, items_of(x))).collect();
     Ok((r.to_string(), ps))
 }
@@ -338,6 +356,26 @@ fn check_doc(kind: &DocKind, shape: &[&'static str], vs: &[Vec<usize>], layout: 
         Err(e) => return vec![viol("accepts-well-formed", ctx(&e))],
     };
     let ctx = |w: &str| format!("{} {:?} -> printed {:?}: {}", kind.id, text, printed, w);
+    // a list-valued field must hold its items as separate elements: the value must not contain the whole list as ONE string
+    // (printing joins the elements again, so this shows only in the value itself)
+    let dbg = last_debug();
+    for para in &model {
+        for (k, v, n, _) in para {
+            if !matches!(n, Norm::Words | Norm::Commas) {
+                continue;
+            }
+            let items: Vec<String> = normalise(*n, v).into_iter().flatten().collect();
+            if items.len() < 2 {
+                continue;
+            }
+            for sep in [" ", ", ", ",", "\n"] {
+                let fused = format!("{:?}", items.join(sep));
+                if dbg.contains(&fused) {
+                    out.push(viol("matches-lossless-view", ctx(&format!("field {}: the typed value holds the list {:?} as the single element {}", k, items, fused))));
+                }
+            }
+        }
+    }
     // roles and field-by-field agreement with the lossless view
     let order = (kind.value_order)(shape);
     let ll_paras: Vec<Items> = ll.paragraphs().map(|p| p.items().collect()).collect();
